@@ -23,17 +23,14 @@ CONSTANT Families
 SeqsUpTo(S, n) == UNION {[1..m -> S] : m \in 0..n}
 NoMap == 99          \* value of mh when the shape has no weak map
 
-ShapesOf(f) ==
-  LET N == 1..f.K
-      RowChoices == {<<"eph", k, v, h>> : k \in N, v \in N, h \in f.holders}
-                      \cup (IF f.weakRows THEN {<<"weak", k, 0, 0>> : k \in N} ELSE {})
-  IN {[K |-> f.K, roots |-> r, edges |-> e, rows |-> w, mh |-> m[1], ents |-> m[2]] :
-        r \in f.rootSets,
-        e \in {s \in SUBSET (N \X N) : Cardinality(s) <= f.maxEdges},
-        w \in SeqsUpTo(RowChoices, f.maxRows),
-        m \in {<<NoMap, <<>>>>} \cup {<<h, t>> : h \in f.mapHolders, t \in SeqsUpTo(N \X N, f.maxEnts)}}
-
-ShapeSet == UNION {ShapesOf(f) : f \in Families}
+\* the components a family sweeps; the MC modules quantify over them one by one (\E ... in Init), so that TLC
+\* enumerates the shapes without building the set of all of them
+RootSetsOf(f) == f.rootSets
+EdgeSetsOf(f) == {s \in SUBSET ((1..f.K) \X (1..f.K)) : Cardinality(s) <= f.maxEdges}
+RowSeqsOf(f)  == SeqsUpTo({<<"eph", k, v, h>> : k \in 1..f.K, v \in 1..f.K, h \in f.holders}
+                            \cup (IF f.weakRows THEN {<<"weak", k, 0, 0>> : k \in 1..f.K} ELSE {}), f.maxRows)
+MapsOf(f)     == {<<NoMap, <<>>>>} \cup {<<h, t>> : h \in f.mapHolders, t \in SeqsUpTo((1..f.K) \X (1..f.K), f.maxEnts)}
+Shape(f, r, e, w, m) == [K |-> f.K, roots |-> r, edges |-> e, rows |-> w, mh |-> m[1], ents |-> m[2]]
 
 \* the abstract state (GcSpec variables) of a shape; rows first, then the entries of the map, as the script creates them.
 \* An entry whose key was inserted before is replaced (the earlier row is not held any more).
